@@ -670,13 +670,20 @@ func parentMain(id, tier string) int {
 	for k, v := range p.Extra {
 		cov[k] = v
 	}
+	assumptions := c.Assumptions
+	if assumptions == nil {
+		assumptions = []string{}
+	}
+	if c.TrustedBase == nil {
+		cov["trusted_base"] = []string{}
+	}
 	ev := map[string]interface{}{
 		"property_id": id,
 		"tier":        tier,
 		"seed":        seed(),
 		"level":       "model_checking",
 		"coverage":    cov,
-		"assumptions": c.Assumptions,
+		"assumptions": assumptions,
 		"wall_s":      time.Since(start).Seconds(),
 		"violations":  violations,
 	}
